@@ -135,7 +135,7 @@ def parse_spec(unit):
         elif kind == "job":
             if w == "props":
                 cur["props"] = [x.strip() for x in rest.replace(",", " ").split()]
-            elif w in ("enforce", "harness"):
+            elif w in ("enforce", "harness", "census"):
                 cur["kind"] = w
                 cur["target"] = rest
             elif w == "replace":
@@ -524,6 +524,40 @@ def trace_tail(trace, n=25):
     return out[-n:]
 
 
+# ----------------------------------------------------------------------------- storage census (C19)
+def census_job(u, job, workdir, all_units):
+    """Structural obligations over nop2c's storage census: under <repo>/include/nop every variable with static or
+    thread storage duration is immutable (const/constexpr) or is ThreadLocal's function-local `static thread_local`
+    slot; distinct (T, Slot) instantiations are distinct symbols; no lowered libnop function of any unit references
+    any other global."""
+    t0 = time.time()
+    root = os.path.join(REPO, "include", "nop") + os.sep
+    res = {"job": job["name"], "unit": u.name, "kind": "census", "target": job["target"], "props": job["props"], "obligations": [],
+           "status": "UNDECIDED", "reason": "", "solver_s": 0.0, "backend": "nop2c storage census (clang AST)", "replaced": [], "cmds": ["nop2c --map (census)"]}
+    ents = [c for c in u.map.get("census", []) if os.path.abspath(c["file"]).startswith(root)]
+    def ob(i, desc, ok):
+        res["obligations"].append({"id": "census.%s" % i, "description": desc, "status": "SUCCESS" if ok else "FAILURE", "function": "storage census", "line": 0, "file": "", "cover": False})
+    tls = [c for c in ents if c["thread_local"] and c["static_local"] and c["file"].endswith("types/thread_local.h")]
+    ob("vacuity", "the census sees the ThreadLocal slots instantiated by the unit (>= 3 instantiations)", len(tls) >= 3)
+    for n, c in enumerate(ents):
+        ok = c["const"] or (c in tls and c["cxx"] == "value")
+        ob("var.%d" % n, "%s %s at %s:%d is immutable or a ThreadLocal thread_local slot (thread_local=%s static_local=%s const=%s)" % (
+            c["type"], c["cxx"], c["file"].replace(REPO + "/", ""), c["line"], c["thread_local"], c["static_local"], c["const"]), ok)
+    syms = [c["symbol"] for c in tls]
+    ob("distinct", "distinct (T, Slot) instantiations of ThreadLocal are distinct objects (%d symbols)" % len(set(syms)), len(set(syms)) == len(syms))
+    n = 0
+    for name, uu in sorted(all_units.items()):
+        for g in uu.map.get("globals", []):
+            if os.path.abspath(g["loc"].rsplit(":", 1)[0]).startswith(os.path.join(REPO, "include") + os.sep):
+                ok = g["thread_local"] and g["static_local"] and "thread_local.h" in g["loc"]
+                ob("ref.%d" % n, "unit %s: lowered libnop code references global %s (%s) — only ThreadLocal's thread_local slot may be referenced" % (name, g["cxx"], g["loc"]), ok)
+                n += 1
+    ob("units", "the lowered libnop functions of all %d units were scanned for references to globals" % len(all_units), len(all_units) >= 5)
+    res["status"] = "FAIL" if any(o["status"] != "SUCCESS" for o in res["obligations"]) else "PASS"
+    res["solver_s"] = round(time.time() - t0, 2)
+    return res
+
+
 # ----------------------------------------------------------------------------- native replay
 def native_build(unit, workdir, sanitize=True):
     exe = os.path.join(workdir, unit + ".native")
@@ -556,6 +590,10 @@ def native_replay(exe, harness, vals, replay_path):
 
 
 # ----------------------------------------------------------------------------- driver
+def all_units_names():
+    return all_units()
+
+
 def all_units():
     return sorted(set(f[:-5] for f in os.listdir(os.path.join(VERIF, "units")) if f.endswith(".spec")) |
                   set(f[:-8] for f in os.listdir(os.path.join(VERIF, "units")) if f.endswith(".spec.py")))
@@ -619,8 +657,30 @@ def check(prop, tier, only_jobs=None, keep=False):
             except Undecided as e:
                 undecided.append(str(e))
     results = []
+    census_jobs = [j for j in jobs if j["kind"] == "census" and j["unit"] in units]
+    if census_jobs:
+        lowered_all = dict(units)
+        with concurrent.futures.ThreadPoolExecutor(NCPU) as ex:
+            futs = {}
+            for unit in all_units_names():
+                if unit not in lowered_all:
+                    try:
+                        spx = parse_spec(unit)
+                    except Undecided as e:
+                        undecided.append(str(e))
+                        continue
+                    futs[ex.submit(lower, unit, workdir, spx.cxxflags)] = unit
+            for f in concurrent.futures.as_completed(futs):
+                try:
+                    lowered_all[futs[f]] = f.result()
+                except Undecided as e:
+                    undecided.append(str(e))
+        for j in census_jobs:
+            r = census_job(units[j["unit"]], j, workdir, lowered_all)
+            results.append(r)
+            log("  [%s] %-34s %-9s %4d obligations, %d failed" % (prop, r["job"], r["status"], len(r["obligations"]), len([o for o in r["obligations"] if o["status"] != "SUCCESS"])))
     with concurrent.futures.ThreadPoolExecutor(NCPU) as ex:
-        futs = [ex.submit(cbmc_job, units[j["unit"]], specs[j["unit"]], j, workdir, tier) for j in jobs if j["unit"] in units]
+        futs = [ex.submit(cbmc_job, units[j["unit"]], specs[j["unit"]], j, workdir, tier) for j in jobs if j["unit"] in units and j["kind"] != "census"]
         for f in concurrent.futures.as_completed(futs):
             r = f.result()
             results.append(r)
